@@ -188,12 +188,20 @@ class Driver(object):
                 pass
         t = threading.Thread(target=feed, daemon=True)
         t.start()
+        # watchdog: the model must answer a batch within the budget, otherwise it is killed (InfraError, exit 2)
+        budget = float(os.environ.get("VERIF_DRIVER_TIMEOUT", "300"))
+        killer = threading.Timer(budget, self.p.kill)
+        killer.daemon = True
+        killer.start()
         outs = []
-        for _ in lines:
-            out = self.p.stdout.readline()
-            if not out:
-                raise InfraError("driver died in batch")
-            outs.append(out.rstrip("\n"))
+        try:
+            for _ in lines:
+                out = self.p.stdout.readline()
+                if not out:
+                    raise InfraError("driver died or exceeded %.0fs in a batch of %d lines (first: %s)" % (budget, len(lines), lines[0][:120]))
+                outs.append(out.rstrip("\n"))
+        finally:
+            killer.cancel()
         t.join()
         self.n += len(lines)
         return outs
